@@ -8,7 +8,7 @@ HARNESS = os.path.join(ROOT, "harness")
 VH = os.path.join(HARNESS, "target", "release", "vh")
 EVID = os.path.join(ROOT, "evidence")
 REPLAYS = os.path.join(ROOT, "replays")
-JAVA_TV = "-Xss1g -Dtlc2.tool.queue.IStateQueue=StateDeque"
+JAVA_TV = "-Xss1g -Xmx3g -Dtlc2.tool.queue.IStateQueue=StateDeque"
 
 
 class ToolError(Exception):
@@ -176,9 +176,7 @@ MIS2_RE = re.compile(r'^<<"(MISMATCH|KNOWN)", "([^"]*)", "([^"]*)", (".*")>>$')
 DONE_RE = re.compile(r'^<<"TVDONE", (\d+), (\d+), (\d+)>>')
 
 
-def run_tv(ctx, module, trace, timeout=1800, label=None, constants=None, env=None):
-    """Validates a recorded NDJSON trace against spec/<module>.tla. Returns list of (id, detail-json, tag)."""
-    label = label or module
+def _tv_one(ctx, module, trace, timeout, label, constants, env):
     cfg = ctx.path(f"{label}.cfg")
     lines = ["SPECIFICATION Spec"]
     if constants:
@@ -196,46 +194,78 @@ def run_tv(ctx, module, trace, timeout=1800, label=None, constants=None, env=Non
         e.update(env)
     cmd = ["timeout", str(timeout), "tlc", "-workers", "1", "-metadir", md, "-cleanup", "-noGenerateSpecTE",
            "-config", cfg, os.path.join(SPEC, module + ".tla")]
+    fo = open(out, "w")
+    p = subprocess.Popen(cmd, stdout=fo, stderr=subprocess.STDOUT, cwd=ctx.work, env=e)
+    return p, fo, out, md
+
+
+def run_tv(ctx, module, trace, timeout=1800, label=None, constants=None, env=None, shards=None):
+    """Validates a recorded NDJSON trace against spec/<module>.tla (split into shards run in parallel).
+    Returns list of (id, detail, tag, extra)."""
+    label = label or module
+    nlines = sum(1 for _ in open(trace))
+    if shards is None:
+        shards = 1 if nlines < 4000 else min(12, max(2, nlines // 4000))
+    files = []
+    if shards <= 1:
+        files = [trace]
+    else:
+        outs = [open(ctx.path(f"{label}.shard{i}.ndjson"), "w") for i in range(shards)]
+        with open(trace) as f:
+            for n, line in enumerate(f):
+                outs[n % shards].write(line)
+        for o in outs:
+            o.close()
+        files = [o.name for o in outs]
     t = time.time()
-    with open(out, "w") as fo:
-        rc = subprocess.run(cmd, stdout=fo, stderr=subprocess.STDOUT, cwd=ctx.work, env=e).returncode
-    dt = time.time() - t
+    procs = [_tv_one(ctx, module, fpath, timeout, f"{label}-{i}", constants, env) for i, fpath in enumerate(files)]
     mism = []
-    done = None
+    tot_consumed = tot_total = tot_bad = 0
     generated = distinct = 0
-    with open(out) as f:
-        for line in f:
-            line = line.rstrip("\n")
-            if line.startswith('<<"MISMATCH"') or line.startswith('<<"KNOWN"'):
-                m = MIS2_RE.match(line)
-                if m:
-                    mism.append((m.group(2), json.loads(m.group(4)), m.group(1), m.group(3)))
+    for (p, fo, out, md) in procs:
+        rc = p.wait()
+        fo.close()
+        done = None
+        with open(out) as f:
+            for line in f:
+                line = line.rstrip("\n")
+                if line.startswith('<<"MISMATCH"') or line.startswith('<<"KNOWN"'):
+                    m = MIS2_RE.match(line)
+                    if m:
+                        mism.append((m.group(2), json.loads(m.group(4)), m.group(1), m.group(3)))
+                        continue
+                    m = MIS_RE.match(line)
+                    if m:
+                        mism.append((m.group(2), json.loads(m.group(3)), m.group(1), ""))
+                    else:
+                        mism.append(("?", line[:2000], "MISMATCH", ""))
                     continue
-                m = MIS_RE.match(line)
+                m = DONE_RE.match(line)
                 if m:
-                    mism.append((m.group(2), json.loads(m.group(3)), m.group(1), ""))
-                else:
-                    mism.append(("?", line[:2000], "MISMATCH", ""))
-                continue
-            m = DONE_RE.match(line)
-            if m:
-                done = tuple(int(x) for x in m.groups())
-            m = STATS_RE.match(line)
-            if m:
-                generated, distinct = int(m.group(1)), int(m.group(2))
-    shutil.rmtree(md, ignore_errors=True)
-    log(f"[tlc] {label}: rc={rc} done={done} mismatches={len(mism)} {dt:.1f}s")
-    ctx.tlc_runs.append(dict(module=module, label=label, rc=rc, wall_s=round(dt, 1), generated=generated,
-                             distinct=distinct, done=done, mismatches=len(mism)))
-    if rc not in (0, 10) or done is None:
-        tail = subprocess.run(["tail", "-30", out], capture_output=True, text=True).stdout
-        raise ToolError(f"trace validator {label} failed rc={rc}\n{tail[-3000:]}")
-    consumed, total, bad = done
-    if consumed != total:
-        raise ToolError(f"trace validator {label} consumed {consumed} of {total} records")
+                    done = tuple(int(x) for x in m.groups())
+                m = STATS_RE.match(line)
+                if m:
+                    generated += int(m.group(1)); distinct += int(m.group(2))
+        shutil.rmtree(md, ignore_errors=True)
+        if rc not in (0, 10) or done is None:
+            tail = subprocess.run(["tail", "-30", out], capture_output=True, text=True).stdout
+            for (p2, _, _, _) in procs:
+                if p2.poll() is None:
+                    p2.kill()
+            raise ToolError(f"trace validator {label} failed rc={rc}\n{tail[-3000:]}")
+        tot_consumed += done[0]; tot_total += done[1]; tot_bad += done[2]
+    dt = time.time() - t
+    for fpath in files:
+        if fpath != trace:
+            os.remove(fpath)
+    log(f"[tlc] {label}: {len(files)} shard(s) done=({tot_consumed}, {tot_total}, {tot_bad}) mismatches={len(mism)} {dt:.1f}s")
+    ctx.tlc_runs.append(dict(module=module, label=label, shards=len(files), wall_s=round(dt, 1), generated=generated,
+                             distinct=distinct, done=[tot_consumed, tot_total, tot_bad], mismatches=len(mism)))
+    if tot_consumed != tot_total or tot_total != nlines:
+        raise ToolError(f"trace validator {label} consumed {tot_consumed} of {tot_total} records ({nlines} lines)")
     ctx.states += distinct
     ctx.transitions += generated
-    ctx.traces_validated += total - bad
+    ctx.traces_validated += tot_total - tot_bad
     return mism
 
 
